@@ -815,6 +815,9 @@ pub fn run_property(prop: &str, tier: &str) -> i32 {
         rep.machinery("no case offered a scheduling choice: exploration would be vacuous".into());
     }
     extra_checks(prop, &rep);
+    if prop != "C02" {
+        model_phase(prop, &rep);
+    }
     rep.finish()
 }
 
@@ -842,6 +845,41 @@ fn run_case(prop: &str, rep: &Report, case0: &Case, ci: usize) {
                 format!("{} :: schedule {:?} :: {}", case.describe(), o.run.choices(), f.msg),
                 json!({"case": case.to_json(), "schedule": o.run.choices(), "finding": f.sig}),
             );
+        }
+        // bind the abstract protocol model to the code: same choices, same begin/end events, same verdict
+        // (verify of a cyclic project fails early on a missing output: another protocol path, not modelled)
+        let verify_cyclic = case.mode == Mode::Verify && case.proj.g.cyc().intersection(&case.required()).next().is_some();
+        if case.extra.is_empty() && case.threads == 0 && o.run.clean() && !verify_cyclic {
+            let scan = case.inputs == ["."];
+            let plain = scan || case.inputs.iter().all(|i| (0..case.proj.g.n).any(|k| out_name(k) == *i));
+            if plain {
+                let roots: Vec<usize> = if scan { vec![] } else { case.roots.clone() };
+                let impl_ev: Vec<String> = o
+                    .run
+                    .trace
+                    .iter()
+                    .filter(|e| e.starts_with("B ") || e.starts_with("E "))
+                    .map(|e| if e[2..].starts_with("scan:") { format!("{}scan:", &e[..2]) } else { e.clone() })
+                    .collect();
+                match crate::smodel::replay_on_model(&case.proj.g, &roots, scan, &o.run.choices()) {
+                    Ok((ev, v)) => {
+                        let same_v = match (&o.run.verdict, v) {
+                            (Verdict::Ok, crate::smodel::MVerdict::Ok) | (Verdict::Err(_), crate::smodel::MVerdict::Err) => true,
+                            _ => false,
+                        };
+                        if ev == impl_ev && same_v {
+                            rep.add("model_traces_conformant", 1);
+                        } else {
+                            rep.add("model_traces_divergent", 1);
+                            rep.set("model_divergence_example", json!({"case": case.describe(), "schedule": o.run.choices(), "implementation": impl_ev, "model": ev, "model_verdict": format!("{:?}", v), "implementation_verdict": o.run.verdict.kind()}));
+                        }
+                    }
+                    Err(e) => {
+                        rep.add("model_traces_divergent", 1);
+                        rep.set("model_divergence_example", json!({"case": case.describe(), "schedule": o.run.choices(), "error": e}));
+                    }
+                }
+            }
         }
         if first.is_none() {
             first = Some(o.clone());
@@ -901,6 +939,96 @@ fn run_case(prop: &str, rep: &Report, case0: &Case, ci: usize) {
             }
         }
     }
+}
+
+/// The protocol model alone, on ALL labelled digraphs with 5 files (thorough) or with <= 4 edges (quick),
+/// directory input and each single file as input. Only claimed while every implementation schedule above
+/// conformed to the model. A model counterexample is confirmed on the real coordinator before it is reported.
+fn model_phase(prop: &str, rep: &Report) {
+    if rep.get("model_traces_divergent") > 0 || rep.get("model_traces_conformant") == 0 {
+        rep.set("protocol_model", json!("NOT USED: the implementation's schedules did not all conform to the abstract model (see model_divergence_example); the 5-file exploration is dropped, the verdict rests on the implementation-level exploration only"));
+        println!("NOTE: the abstract protocol model no longer describes the coordinator; 5-file model exploration skipped");
+        return;
+    }
+    if rep.over_cap() {
+        return;
+    }
+    let thorough = rep.thorough();
+    let n = 5usize;
+    let total: u64 = 1 << (n * n);
+    let max_edges = if thorough { 25 } else { 4 };
+    let blocks: u64 = 4096;
+    let per = total / blocks;
+    sharded_dyn(rep, par_threads(), |_k, _n, next, rep| {
+        let mut stats = crate::smodel::ModelStats { states: 0, transitions: 0, terminals: 0 };
+        let mut graphs = 0u64;
+        loop {
+            let b = next() as u64;
+            if b >= blocks {
+                break;
+            }
+            if rep.over_cap() {
+                rep.note_cap("wall-clock cap in the 5-file protocol-model exploration");
+                break;
+            }
+            for adj in (b * per)..((b + 1) * per) {
+                let adj = adj as u32;
+                if adj.count_ones() > max_edges {
+                    continue;
+                }
+                let g = Graph { n, adj };
+                graphs += 1;
+                let mut sels: Vec<(Vec<usize>, bool)> = vec![(vec![], true)];
+                if thorough || adj.count_ones() <= 3 {
+                    sels.push((vec![0], false));
+                }
+                for (roots, scan) in sels {
+                    if let Some(msg) = crate::smodel::check_model(&g, &roots, scan, &mut stats) {
+                        // confirm on the real coordinator
+                        let case = Case {
+                            proj: Proj { g, style: if prop == "C03" { Style::Marker } else { Style::Include } },
+                            inputs: if scan { vec![".".into()] } else { vec![out_name(0)] },
+                            roots: if scan { (0..n).collect() } else { roots.clone() },
+                            pre: Pre::Stale,
+                            mode: Mode::Build,
+                            threads: 0,
+                            extra: Tree::new(),
+                            recursive: false,
+                        };
+                        let env = CaseEnv::new();
+                        let mut confirmed = false;
+                        let _ = explore_case(&env, &case, Explore::Reduced, 20_000, |o| {
+                            for f in check_obs(prop, &case, o) {
+                                confirmed = true;
+                                rep.violate(
+                                    &f.sig,
+                                    format!("{} :: schedule {:?} :: {} (found first on the protocol model: {msg})", case.describe(), o.run.choices(), f.msg),
+                                    json!({"case": case.to_json(), "schedule": o.run.choices(), "finding": f.sig}),
+                                );
+                            }
+                        });
+                        if !confirmed {
+                            rep.machinery(format!("protocol model reports '{msg}' for {} but the real coordinator shows no violation", case.describe()));
+                        }
+                    }
+                }
+            }
+        }
+        rep.add("model_5_file_graphs", graphs);
+        rep.add("model_states", stats.states as u64);
+        rep.add("model_transitions", stats.transitions as u64);
+        rep.add("model_terminal_states", stats.terminals as u64);
+        rep.st(stats.states);
+        rep.tr(stats.transitions);
+    });
+    rep.set(
+        "protocol_model",
+        json!(format!(
+            "abstract coordinator model (harness/src/smodel.rs): every implementation schedule above was replayed on it with identical begin/end events and verdict; explored alone, explicit-state with de-duplication, on all labelled digraphs with 5 files{} (directory input{})",
+            if thorough { "" } else { " and at most 4 edges" },
+            if thorough { " and the first file by name" } else { "; single-file input up to 3 edges" }
+        )),
+    );
 }
 
 /// un-reduced vs reduced comparison and thread-count subsumption on small graphs
